@@ -30,7 +30,7 @@ ASSUMPTIONS = [
     "for types other than 00h/04h/07h/01h/05h/08h only the primary commands (INQUIRY, TEST UNIT READY, REPORT LUNS) are demanded",
     "re-attaching the same device object after its node changed type is judged only on the recognised-family clauses",
 ]
-REQUIRED_PROBES = ["plain_device", "iscsi_nonzero_lun", "reattach_other_family", "attach_fault", "followup_ok", "unknown_type"]
+REQUIRED_PROBES = ["foreign_command_not_sent", "plain_device", "iscsi_nonzero_lun", "reattach_other_family", "attach_fault", "followup_ok", "unknown_type"]
 
 FAMILY = {0x00: "sbc", 0x04: "sbc", 0x07: "sbc", 0x01: "ssc", 0x05: "mmc", 0x08: "smc"}
 DISC = {
@@ -75,8 +75,10 @@ def generate(rng, idx, tier):
         r = rng.random()
         if not attached or r < 0.5:
             op = {"op": "attach", "dev": rng.randrange(nd), "new_facade": (not attached) or rng.random() < 0.2}
-            if rng.random() < 0.1:
+            if rng.random() < 0.12:
                 op["fault"] = {"kind": "status", "byte": 2, "sense": S.fixed(rng.choice([2, 6]), *rng.choice([(0x04, 0x01), (0x29, 0x00)])).hex()}
+                if rng.random() < 0.35:
+                    op["fault"] = {"kind": "status", "byte": rng.choice([0x08, 0x28, 0x18])}      # BUSY / TASK SET FULL / RESERVATION CONFLICT on the attach INQUIRY
             attached = True
         elif r < 0.9:
             op = {"op": "followup", "seed": rng.randrange(1 << 30)}
@@ -172,11 +174,15 @@ def followups(dtype, seed):
     base = [("inquiry", [], {}), ("testunitready", [], {}), ("reportluns", [], {})]
     if fam == "sbc":
         base += [("read16", [seed % 100, 1], {}), ("writesame16", [seed % 50, 2, bytearray(512)], {}), ("readcapacity10", [], {}),
-                 ("synchronizecache16", [0, 1], {})]
+                 ("synchronizecache16", [0, 1], {}), ("readcapacity16", [], {}), ("getlbastatus", [seed % 100], {}),
+                 ("reporttargetportgroups", [], {})]
     elif fam == "mmc":
         base += [("readcd", [seed % 100, 1], {"est": 2, "mcsb": 2, "c2ei": 0, "scsb": 0}), ("readdiscinformation", [0], {})]
     elif fam == "smc":
-        base += [("readelementstatus", [0, 10], {}), ("positiontoelement", [0, 0x100], {})]
+        base += [("readelementstatus", [0, 10], {}), ("positiontoelement", [0, 0x100], {}), ("reporttargetportgroups", [], {})]
+    if fam != "sbc":
+        # commands of the block command set looked up by service action (9Eh): not part of this device's set, must not reach it
+        base += [("!readcapacity16", [], {}), ("!getlbastatus", [0], {})]
     return base[seed % len(base)]
 
 
@@ -289,6 +295,20 @@ def execute(prog):
             if spec.get("stale") or (spec.get("retyped") and not FAMILY.get(spec["type"])):
                 m, args, kw = ("testunitready", [], {})
             where = "%s/followup" % spec["transport"]
+            if m.startswith("!"):
+                # a command another family owns: the facade must not find it in this device's set, and nothing may reach the device
+                m = m[1:]
+                mark = len(WORLD.deliveries)
+                kind, val = worlds.outcome_of(lambda: getattr(scsi, m)(*args, **kw))
+                sent = [d for d in WORLD.deliveries[mark:] if d.get("cdb") and d["cdb"][0] == 0x9E]
+                if sent:
+                    V.append(dict(oracle="C16.family-leak", where=where, detail="type=%02x/%s" % (spec["type"], m),
+                                  expected="%s is not in the command set of a type %#04x device: nothing is sent" % (m, spec["type"]),
+                                  actual="SERVICE ACTION IN(16) %s reached the device" % sent[0]["cdb"].hex()))
+                else:
+                    WORLD.probe("foreign_command_not_sent")
+                summary.append("!%s:%s" % (m, kind))
+                continue
             kind, val = worlds.outcome_of(lambda: getattr(scsi, m)(*args, **kw))
             if kind == "exc":
                 V.append(dict(oracle="C16.followup-fails", where=where, detail="type=%02x/%s" % (spec["type"], m),
